@@ -92,6 +92,10 @@ namespace pika::detail {
         {
             old_state = expected;
 
+            // the state may have changed to 'stop requested' (and already unlocked again) since
+            // it was first inspected
+            if (stop_requested(old_state)) return false;
+
             for (std::size_t k = 0; is_locked(old_state); ++k)
             {
                 pika::execution::this_thread::detail::yield_k(
@@ -127,6 +131,18 @@ namespace pika::detail {
             std::memory_order_acquire, std::memory_order_relaxed))
         {
             old_state = expected;
+
+            // the state may have changed to 'stop requested' (and already unlocked again) since
+            // it was first inspected: the callback has to run now instead of being registered
+            if (stop_requested(old_state))
+            {
+                cb->execute();
+
+                cb->callback_finished_executing_.store(true, std::memory_order_release);
+
+                return false;
+            }
+            else if (!stop_possible(old_state)) { return false; }
 
             for (std::size_t k = 0; is_locked(old_state); ++k)
             {
